@@ -1,10 +1,16 @@
 #!/bin/bash
 # eval_seeded_tmp.sh <SID> <check> [<check>...]: run checks against /repo's tree + /tmp/seeded_out/<SID>/patch.diff (scratch copy)
+# RUNS_DIV=n divides each check's quick size by n (used to sweep all checks over a behaviour-preserving rewrite)
 SID=$1; shift
 S=/tmp/seeded_scratch_$SID
 rm -rf $S; mkdir -p $S; cp -r /repo/eliot $S/eliot
 ( cd $S && patch -s -p1 < /tmp/seeded_out/$SID/patch.diff ) || { echo "patch failed"; exit 1; }
 for c in "$@"; do
-  echo "== seeded $SID vs $c: $(cd /verif && ELIOT_SRC=$S VERIF_SHRINK_S=5 timeout 900 /venv/bin/python check.py $c 2>&1 | grep -E '^(C[0-9]|HARNESS)' | cut -c1-330 | tr '\n' ' ')"
+  extra=""
+  if [ -n "$RUNS_DIV" ]; then
+    q=$(cd /verif && /venv/bin/python -c "import importlib;print(importlib.import_module('props.$(echo $c | tr A-Z a-z)').QUICK_RUNS // $RUNS_DIV)")
+    extra="--runs $q"
+  fi
+  echo "== seeded $SID vs $c: $(cd /verif && ELIOT_SRC=$S VERIF_SHRINK_S=5 timeout 900 /venv/bin/python check.py $c $extra 2>&1 | grep -E '^(C[0-9]|HARNESS)' | cut -c1-330 | tr '\n' ' ')"
 done
 rm -rf $S; rm -f /verif/replays/*.json
